@@ -991,6 +991,9 @@ void flexinit (int argc, char **argv)
 
 		    case OPT_EMIT:
 			ctrl.emit = arg;
+			/* select the back end now, as %option emit does:
+			 * the scanner consults it while reading actions */
+			backend_by_name(ctrl.emit);
 			break;
 
 		    case OPT_HEADER_FILE:
